@@ -148,7 +148,7 @@ SUITES = {
             ('typing_of_members_and_addresses', _types_extra, 'typer: typing of structure literal members, of assignments through member/element chains, of address depth',
              '38 single programs, one obligation each: pointers passed for value parameters and for parameters one pointer level short (4); index/member steps on something that is neither array nor structure (3); an array view behind a pointer assigned to an element (1); excess, exact and missing addresses on arguments, initial values and assigned values (11); a structure literal member of another type (2), an excess address on an argument, well-typed assignments through member/element/pointer chains (6: element of an array member, member of an array element, through a pointer member, word into an array-of-words member, member of such an element, whole array member), ill-typed ones that must be E504 (4), an array view assigned to an array element, through a pointer, and to/through members (6: must be an error - E504 where the member path is involved -, not a failed assertion)')],
     'C08': [('mutating_uses', _mut, 'the whole-program consequence; the typer',
-             'about 110 programs: 7 kinds of target x (assignment, address handed to a writing callee in 15 expression/statement contexts incl. index expressions); the same call WITHOUT & in each context (E513); whole-aggregate copies (E531-E533); local slices; elements/members of constants and of by-value word parameters; & missing on pointer arguments')],
+             'about 125 programs: 7 kinds of target x (assignment, address handed to a writing callee in 15 expression/statement contexts incl. index expressions, address stored in a structure literal that is handed to a writing callee); the same call WITHOUT & in each context (E513); whole-aggregate copies (E531-E533) incl. aggregates reached through an index or a member; local slices; elements/members of constants and of by-value word parameters; & missing on pointer arguments')],
     'C09': [('literal_range_lints', _literals, 'alpha parser (minus folding, signed/bit split), typer literal typing',
              '10 integer types x ~14 boundary values x up to 5 spellings x (typed by declaration, typed by suffix); 60 literals just beyond and far beyond 128 bits (every last digit of 2^128+0..9, with and without underscores and suffix), always included'),
             ('invalid_lexemes_rejected', _lexd_invalid, 'which escapes, quotes and suffixes the lexers reject',
@@ -164,9 +164,9 @@ SUITES = {
             ('extern_abi_types', _extern_abi, 'fix_type_for_flags / fix_return_type_for_flags (the callers of externalize_type, which is under contract)',
              '12 primitive types x 7 positions of an extern signature (parameter / return type of a head and of a definition, element of an array view, pointee of a pointer parameter and of a returned pointer): accepted iff the type is in the documented ABI list, else E358'),
             ('permutation_invariance', _invariance, 'scoper name resolution (use_struct/use_constant), declaration sorting',
-             'modules of 2..6 declarations drawn from 20 templates (constants, structures, functions; shared names across namespaces, missing dependencies, duplicates): every one of 8 (thorough: all) permutations accepted or rejected alike; templates include declarations without a body (extern heads) and functions whose parameters and locals share their parameter names')],
+             'modules of 2..6 declarations drawn from 24 templates (incl. a word and structures that hold it by value and behind a pointer) (constants, structures, functions; shared names across namespaces, missing dependencies, duplicates): every one of 8 (thorough: all) permutations accepted or rejected alike; templates include declarations without a body (extern heads) and functions whose parameters and locals share their parameter names')],
     'C12': [('module_visibility', _modules, 'expand() (import fix-point), path resolution in context',
-             '30 module sets of 2..4 files (public/private function, constant, structure, opaque structure; direct, missing, transitive, diamond, duplicate, mutual and late imports; relative paths; look-alike file names; an empty or comment-only file and a bystander module among the files; parameter names of imported functions) x file orders')],
+             '33 module sets of 2..4 files (public/private function, constant, structure, opaque structure; direct, missing, transitive, diamond, duplicate, mutual and late imports; relative paths; look-alike file names; an empty or comment-only file and a bystander module among the files; parameter names of imported functions; an imported function with an array-view parameter, an imported word used as a member of a word, an imported structure's members) x file orders')],
     'C13': [('determinism', _determinism, 'HashMap/HashSet iteration order in scoper/typer/expander',
              'invalid and valid samples of the repository plus 4 constructed multi-error modules (these 8 times; thorough: 10), each compiled in 3 (thorough: 5) fresh processes'),
             ('diagnostic_locations', _locations, 'alpha parser span bookkeeping (location_of_span, combined_with call sites), error.rs',
@@ -178,10 +178,10 @@ SUITES = {
              'as C09.alpha_lexer_tokens with every line end written CRLF')],
     'C14': [('alpha_lexer_tokens', _lexa, 'agreement of the two lexers (each is verified against its own spec)', 'as C09.alpha_lexer_tokens'),
             ('delta_lexer_tokens_and_agreement', _lexd, 'classification of every lexeme by the second-generation lexer; agreement of the two lexers',
-             'the token sequences of C09.alpha_lexer_tokens through the second-generation lexer (kind, value type, payload by construction); 48 inputs with an invalid lexeme and 30 literals with two faults (a first fault and no closing quote) must be rejected by both lexers, which must name the same faults in the same order, the first fault first'),
+             'the token sequences of C09.alpha_lexer_tokens through the second-generation lexer (kind, value type, payload by construction); 54 inputs with an invalid lexeme (incl. an overflowing literal with an unknown suffix, surrogates in \\u escapes) and 30 literals with two faults (a first fault and no closing quote) must be rejected by both lexers, which must name the same faults in the same order, the first fault first'),
             ('alpha_lexer_tokens_crlf', _lexa_crlf, 'the trusted model of str::split_inclusive / strip_suffix', 'as C09.alpha_lexer_tokens with every line end written CRLF')],
     'C15': [('delta_front_end_crash_search', _delta_crash, 'XML dumps, recursion depth',
-             'fixed seeds, every sequence of <= 2 (thorough: <= 3) of 23 expression tokens where an expression, a statement or a constant value is expected and at the end of the file (plus a random sample one token longer), boundary runs of every token (127..1000 repeats), inputs at the token limit, repository samples, token soup of length <= 4 (thorough: <= 6)'),
+             'fixed seeds, every sequence of <= 2 (thorough: <= 3) of 23 expression tokens where an expression, a statement, a constant value, an if-condition or an else-branch is expected and at the end of the file (plus a random sample one token longer), boundary runs of every token (127..1000 repeats), inputs at the token limit, repository samples, token soup of length <= 4 (thorough: <= 6)'),
             ('invalid_lexemes_rejected', _lexd_invalid, 'which bytes and escapes the lexer accepts inside literals',
              '48 inputs with one invalid lexeme (control characters in literals and between tokens, bad or unclosed escapes, unclosed quotes, bad digits, keyword and misspelt suffixes, stray symbols): rejected by both lexers'),
             ('large_valid_modules', _large, 'the capacity arithmetic of the token and node buffers on large inputs (proved per function, but only under the preconditions its callers establish)',
